@@ -79,7 +79,7 @@ SCALARS = {
     'unsigned long long': 'unsigned long long', 'long long': 'long long', 'signed char': 'signed char',
     'float': 'float', 'double': 'double', 'time_t': 'long', 'uintptr_t': 'uintptr_t', 'intptr_t': 'intptr_t',
     'ptrdiff_t': 'ptrdiff_t', 'std::ptrdiff_t': 'ptrdiff_t', 'off_t': 'long', 'pid_t': 'int', 'socklen_t': 'unsigned int',
-    'iovec': 'struct iovec', 'timezone': 'struct timezone', 'tm': 'struct tm', 'epoll_event': 'struct epoll_event', 'fd_set': 'fd_set', '__fd_mask': 'long', 'timeval': 'struct timeval', 'timespec': 'struct timespec',
+    'iovec': 'struct iovec', 'timezone': 'struct timezone', 'tm': 'struct tm', 'epoll_event': 'struct epoll_event', 'fd_set': 'fd_set', '__fd_mask': 'long', '__sigset_t': 'sigset_t', 'sigset_t': 'sigset_t', 'timeval': 'struct timeval', 'timespec': 'struct timespec',
     '__uint8_t': 'uint8_t', '__uint16_t': 'uint16_t', '__uint32_t': 'uint32_t', '__uint64_t': 'uint64_t',
 }
 INT_RANGE = {
@@ -313,6 +313,18 @@ class Unit:
         for kw in ('struct ', 'class ', 'enum ', 'union '):
             if name.startswith(kw): name = name[len(kw):]
         if name in SCALARS: return SCALARS[name]
+        mm = re.match(r'^std::(?:unordered_)?map<(.*)>::mapped_type$', name)
+        if mm:
+            # the mapped type of a std::map: its second template argument (top-level comma split)
+            depth = 0; parts = ['']
+            for ch in mm.group(1):
+                if ch == '<': depth += 1
+                if ch == '>': depth -= 1
+                if ch == ',' and depth == 0: parts.append(''); continue
+                parts[-1] += ch
+            if len(parts) >= 2:
+                try: return self.ctype(parts[1].strip())
+                except Unsupported: return None
         if name.endswith('::size_type'): return 'size_t'
         if name.endswith('::difference_type'): return 'ptrdiff_t'
         if name in self.opaque_records: return self.opaque_records[name]
@@ -322,7 +334,7 @@ class Unit:
             m = self.models.type_for(name, self)
             if m: return m
         cands = [q for q in self.records if q == name or q.endswith('::' + name)]
-        if not cands: cands = [q for q in self.records if '::' in q and name.endswith('::' + q)]     # dumped through a partial filter (e.g. cabinet::Token)
+        if not cands: cands = [q for q in self.records if name.endswith('::' + q)]     # dumped through a partial filter (e.g. cabinet::Token)
         if len(cands) >= 1:
             q = sorted(cands, key=len)[0] if name not in self.records else name
             self.need_record(q)
@@ -1702,7 +1714,7 @@ class Unit:
         if self.models and self.models.is_model_type(ct) and not is_ref and '*' not in ct:
             self.models.local_object(self, v, ct, name, ks, p)
             return
-        SYS = ('struct iovec', 'struct timeval', 'struct timespec', 'struct timezone', 'struct tm', 'struct epoll_event', 'fd_set')
+        SYS = ('struct iovec', 'struct timeval', 'struct timespec', 'struct timezone', 'struct tm', 'struct epoll_event', 'fd_set', 'sigset_t')
         if ct.startswith('struct ') and not ct.strip().endswith('*') and not is_ref and '[' not in txt and ct not in SYS:
             rec = ct[len('struct '):].strip()
             ce = self.strip_tmp(ks[0]) if ks else None
